@@ -530,6 +530,7 @@ func (s *TranslateFile) TranslateColumnsToUint64(index string, values []string) 
 	}
 
 	// If any values not found then recheck and then add under a write lock.
+	verifTranslateGate(s)
 	s.mu.Lock()
 	defer s.mu.Unlock()
 
@@ -637,6 +638,7 @@ func (s *TranslateFile) TranslateRowsToUint64(index, field string, values []stri
 	}
 
 	// If any values not found then recheck and then add under a write lock.
+	verifTranslateGate(s)
 	s.mu.Lock()
 	defer s.mu.Unlock()
 
